@@ -9,6 +9,10 @@ from progcorpus import *  # noqa
 from gen_subs import gen_sub_program
 
 PROOF_FILES = ["Comp/SpillSem.v", "Proofs/SpillProof.v", "Proofs/PrologueProof.v", "Proofs/CallPartial.v", "Proofs/CallExamples.v"]
+# composition (Props/C02_compose.v): linked code with callsub/retsub and a call stack computes the call-aware source semantics;
+# CallX/* re-checks the C01 chain against a call oracle (13 of its files are generated from Proofs/ by harness/tools/callx_gen.py)
+COMPOSE_FILES = ["Comp/LinkedSem.v"] + ['CallX/Denote.v', 'CallX/EndToEnd.v', 'CallX/EndToEndGlue.v', 'CallX/FlattenCorrect.v', 'CallX/GraphSem.v', 'CallX/LinearSem.v', 'CallX/LowerCorrect.v', 'CallX/LowerLemmas.v', 'CallX/NormalizeCorrect.v', 'CallX/NormalizeLowered.v', 'CallX/NormalizeSem.v', 'CallX/SimCheck.v', 'CallX/SlotCompose.v', 'CallX/SlotComposeCover.v', 'CallX/SlotComposeEnd.v', 'CallX/SlotComposeFinal.v', 'CallX/SortCorrect.v'] + ['Proofs/CallComposeAcyclic.v', 'Proofs/CallComposeBind.v', 'Proofs/CallComposeByValue.v', 'Proofs/CallComposeByValueExample.v', 'Proofs/CallComposeByValueFinal.v', 'Proofs/CallComposeExamples.v', 'Proofs/CallComposeFinal.v', 'Proofs/CallComposeFrame.v', 'Proofs/CallComposeLayout.v', 'Proofs/CallComposeLink.v', 'Proofs/CallComposeMachine.v', 'Proofs/CallComposeMain.v', 'Proofs/CallComposeProgram.v', 'Proofs/CallComposeProtect.v', 'Proofs/CallComposeSpill.v', 'Proofs/CallComposeSpillPass.v']
+EXTRA_PROPS = ["Props/C02_compose.v"]
 
 
 def I_(n):
@@ -193,7 +197,7 @@ def main(argv):
     if rc != 0:
         ck.violation("translator aborted", {"broken": "harness/translate.py", "log": out[-2000:]}, no_failing_input=True)
         return ck.finish(level="proof", rule="translator failed")
-    ck.run_proofs("Props/C02.v", PROOF_FILES, extra_targets=["Extract/Main.vo"])
+    ck.run_proofs("Props/C02.v", PROOF_FILES + COMPOSE_FILES, extra_targets=["Extract/Main.vo"], extra_props=EXTRA_PROPS)
     model = Model()
     rng = ck.rng
     mismatches, semfails, stats, outcomes, classes_seen = [], [], {}, {}, {}
@@ -300,7 +304,7 @@ def main(argv):
                      {"kind": "correspondence", "broken": "text equality compileTeal vs Comp.Compile.compile_model (subroutines)", "case": c.describe(),
                       "subs": {k: repr(v["body"]) for k, v in c.builder.subs.items()}}, no_failing_input=True)
     if not ck.proof_ok and not semfails:
-        ck.violation("proof obligation broken: Props/C02.v no longer checks", {"kind": "proof", "broken": "Props/C02.v", "log": ck.proof_log[-1500:]}, no_failing_input=True)
+        ck.violation("proof obligation broken: Props/C02.v / Props/C02_compose.v no longer check", {"kind": "proof", "broken": "Props/C02.v, Props/C02_compose.v", "log": ck.proof_log[-1500:]}, no_failing_input=True)
     ck.coverage["disagreements_checked"] = len(mismatches) + len(semfails) + sum(classes_seen.values())
     ck.coverage["programs"] = sum(outcomes.values())
     model.close()
